@@ -101,6 +101,16 @@ def adversarial_rows(t, sent, cfg):
         row[:] = [new[p] for p in perm]
 
 
+def t_repeat_root(t, roots):
+    """a root list may name a category twice (--root-cats 'S|NP|S'): a list, not a set, is what callers pass"""
+    k = t.tail(0) % 6
+    if k == 1:
+        return roots + [roots[t.tail(1) % len(roots)]]
+    if k == 2:
+        return [roots[-1]] + roots
+    return roots
+
+
 def t_table_case(t, head_modes=('left', 'right'), n_max=5, T_max=4, K_max=7, nbest_max=1,
                  numerics=('dyadic', 'dyadic', 'logsoftmax', 'flat'), beam='mild', multi_label=False,
                  n_sentences=1):
@@ -120,6 +130,7 @@ def t_table_case(t, head_modes=('left', 'right'), n_max=5, T_max=4, K_max=7, nbe
             if numeric == 'dyadic':
                 numeric = 'dyadic+offsets'      # rows moved by log(beta) +/- delta are no longer dyadic: tolerance
         sents.append(s)
+    roots = t_repeat_root(t, roots)
     return {'grammar': spec, 'tags': spec['cats'][:T], 'roots': roots, 'sentences': sents, 'config': cfg,
             'numeric': numeric, 'head_mode': head_mode}
 
@@ -156,6 +167,7 @@ def t_real_case(t, lang, n_max=5, nbest_max=1, numerics=('dyadic', 'dyadic', 'lo
     roots = [root] + [c for c in idx.root_candidates[:12] if t.chance(60) and c != root]
     if t.chance(30):
         roots = roots[1:] or roots
+    roots = t_repeat_root(t, roots)
     cfg = t_config(t, T, numeric, nbest_max, beam)
     cfg['pruning_size'] = min(cfg['pruning_size'], t.int(2, 4))
     use_seen = with_seen if with_seen is not None else t.chance(128)
